@@ -2,7 +2,9 @@ package runh
 
 // Harnesses lists the harness entry points of this package for native playback.
 var Harnesses = map[string]func(){
-	"History": History,
-	"Order":   Order,
-	"Find":    Find,
+	"History":   History,
+	"Order":     Order,
+	"Find":      Find,
+	"HashClean": HashClean,
+	"HashDet":   HashDet,
 }
